@@ -75,7 +75,9 @@ def parseBody? (toks : List String) : Option TBook :=
     match rest.dropWhile (· != "|") with
     | "|" :: askToks =>
       match seq.toNat?, parseTime? te, parseLevels? bidToks, parseLevels? askToks with
-      | some seq, some te, some bids, some asks => some (TBook.new seq te bids asks)
+      | some seq, some te, some bids, some asks =>
+        -- `sequence: u64`: the harness reports anything else as `bad-op`
+        if seq < 2 ^ 64 then some (TBook.new seq te bids asks) else none
       | _, _, _, _ => none
     | _ => none
   | _ => none
@@ -213,6 +215,7 @@ def model : Drv MSt where
     | ["depth", c, d] =>
       match c.toNat?, d.toNat? with
       | some c, some d =>
+        if d ≥ 2 ^ 64 then (s, ["bad-op"]) else
         match s.heap[c]? with
         | some b =>
           let sn := b.snapshot d
@@ -334,6 +337,7 @@ def spec : Drv SSt where
     | ["depth", c, d] =>
       match c.toNat?, d.toNat? with
       | some c, some d =>
+        if d ≥ 2 ^ 64 then (s, ["bad-op"]) else
         match s.cells[c]? with
         | some cell => (s, obsSpecSnap "snap" cell d)
         | none => (s, ["bad-op"])
